@@ -10,12 +10,12 @@ Lemma ftype_ind' (P : ftype -> Prop)
   (HFloat : forall w, P (TFloat w)) (HFsb : forall n, P (TFsb n)) (HVar : P TVar)
   (HStruct : forall fs, Forall P fs -> P (TStruct fs))
   (HList : forall c, P c -> P (TList c)) (HFsl : forall c n, P c -> P (TFsl c n))
-  (HRee : forall c, P c -> P (TRee c)) : forall t, P t.
+  (HRee : forall c, P c -> P (TRee c)) (HIv : forall ws, P (TIv ws)) : forall t, P t.
 Proof.
-  fix IH 1. intros [w|w| |w|n| |fs|c|c n|c].
+  fix IH 1. intros [w|w| |w|n| |fs|c|c n|c|ws].
   - apply HInt. - apply HUInt. - apply HBool. - apply HFloat. - apply HFsb. - apply HVar.
   - apply HStruct. induction fs as [|f fs IHfs]; constructor; [apply IH | exact IHfs].
-  - apply HList, IH. - apply HFsl, IH. - apply HRee, IH.
+  - apply HList, IH. - apply HFsl, IH. - apply HRee, IH. - apply HIv.
 Qed.
 
 (* ------------------------------------------------------------------ struct *)
@@ -116,3 +116,37 @@ Proof.
   induction vs as [|x vs IH]; cbn [wt_all]; [split; constructor|].
   split; [intros [H1 H2]; constructor; tauto | intros H; inversion H; subst; tauto].
 Qed.
+
+(* ------------------------------------------------------------------ interval tuples *)
+Fixpoint tuple_cmp (xs ys : list value) : comparison :=
+  match xs, ys with
+  | x :: xs', y :: ys' => match (vint x ?= vint y)%Z with Eq => tuple_cmp xs' ys' | r => r end
+  | _, _ => Eq
+  end.
+
+Lemma cmp_asc_iv ws nf xs ys : cmp_asc (TIv ws) nf (VStruct xs) (VStruct ys) = tuple_cmp xs ys.
+Proof.
+  cbn [cmp_asc]. revert ys. induction xs as [|x xs IH]; intros [|y ys]; try reflexivity;
+    cbn [tuple_cmp]; first [reflexivity | now rewrite <- IH | now rewrite IH].
+Qed.
+
+Fixpoint wt_tuple (ws : list nat) (vs : list value) : Prop :=
+  match ws, vs with
+  | [], [] => True
+  | w :: ws', VInt z :: vs' =>
+    (- 2 ^ (Z.of_N (bits w) - 1) <= z < 2 ^ (Z.of_N (bits w) - 1))%Z /\ wt_tuple ws' vs'
+  | _, _ => False
+  end.
+
+Lemma wt_iv ws vs : wt (TIv ws) (VStruct vs) = wt_tuple ws vs.
+Proof.
+  cbn [wt]. revert vs. induction ws as [|w ws IH]; intros vs; [reflexivity|].
+  destruct vs as [|[|z| | |] vs]; try reflexivity; cbn [wt_tuple];
+    first [reflexivity | now rewrite <- IH | now rewrite IH].
+Qed.
+
+Fixpoint wf_widths (ws : list nat) : Prop :=
+  match ws with [] => True | w :: r => (1 <= w)%nat /\ wf_widths r end.
+
+Lemma wf_type_iv ws : wf_type (TIv ws) = wf_widths ws.
+Proof. cbn [wf_type]. induction ws as [|w ws IH]; [reflexivity|]. cbn [wf_widths]. first [reflexivity | now rewrite <- IH | now rewrite IH]. Qed.
